@@ -679,6 +679,10 @@ class Fxp():
             val = val.val * 2**(self.n_frac - val.n_frac)
             raw = True
 
+            # a negative shift gives non-integer raw values: they must reach the rounding step as floats
+            if vdtype is not None and np.issubdtype(vdtype, np.integer) and np.issubdtype(np.asarray(val).dtype, np.floating):
+                vdtype = float
+
         elif isinstance(val, (int, float, complex)):
             vdtype = type(val)
 
